@@ -339,8 +339,64 @@ theorem step_comm (lvl : Int) (app : App) (s s' : St) (b : Bytes) (wf : ChunkWF 
       unfold idleStep; simp only [extend, hs, ha]
     | cont st ch =>
       simp only [ha] at h; cases h
-      apply comm_simple lvl app s _ b wf _ (by simp only; split <;> simp) (by simp only; split <;> simp)
-      unfold idleStep; simp only [extend, hs, ha]
+      -- whether "100 Continue" is due depends on the buffer being empty at the first call
+      by_cases hc : (s.remaining = 0) ∨ ¬ ((need100Continue { s with out := .first s.head.method s.head.target :: s.out } && s.buf.isEmpty) = true)
+          ∨ b = []
+      · apply comm_simple lvl app s _ b wf _ (by simp only; repeat' split
+                                                 all_goals simp) (by simp only; repeat' split
+                                                                     all_goals simp)
+        unfold idleStep; simp only [extend, hs, ha]
+        have hN : ∀ (st : CState) (bf : Bytes) (o : List Ev),
+            need100Continue { s with state := st, buf := bf, out := o } = need100Continue s := fun _ _ _ => rfl
+        have hN2 : ∀ (o : List Ev), need100Continue { s with out := o } = need100Continue s := fun _ => rfl
+        simp only [hN] 
+        simp only [hN2] at hc
+        by_cases hr : s.remaining = 0
+        · simp only [hr, if_true]
+        · simp only [hr, if_false]
+          have hcond : (need100Continue s && (s.buf ++ b).isEmpty) = (need100Continue s && s.buf.isEmpty) := by
+            rcases hc with hc | hc | hc
+            · exact absurd hc hr
+            · have hc' : (need100Continue s && s.buf.isEmpty) = false := by simpa using hc
+              rw [hc']
+              rw [Bool.and_eq_false_iff] at hc' ⊢
+              cases hc' with
+              | inl h1 => exact Or.inl h1
+              | inr h1 =>
+                right
+                cases hb : s.buf with
+                | nil => simp [hb] at h1
+                | cons _ _ => rfl
+            · subst hc; simp
+          rw [hcond]
+      · -- 100 Continue was due without `b`; with `b` in the buffer the body is read directly:
+        -- both ways meet in `bodyReceiving` with `b` in the buffer
+        have hc1 : ¬ s.remaining = 0 := fun e => hc (Or.inl e)
+        have hc2 : (need100Continue { s with out := .first s.head.method s.head.target :: s.out } && s.buf.isEmpty) = true := by
+          by_cases e : (need100Continue { s with out := .first s.head.method s.head.target :: s.out } && s.buf.isEmpty) = true
+          · exact e
+          · exact absurd (Or.inr (Or.inl e)) hc
+        have hc3 : b ≠ [] := fun e => hc (Or.inr (Or.inr e))
+        have hbe : s.buf = [] := by
+          simp only [Bool.and_eq_true, List.isEmpty_iff] at hc2; exact hc2.2
+        let t : St := { s with buf := s.buf ++ b, out := .first s.head.method s.head.target :: s.out, state := .bodyReceiving }
+        have e1 : idleStep lvl app (extend s b) = some t := by
+          unfold idleStep; simp only [extend, hs, ha, hc1, if_false, t]
+          have : (s.buf ++ b).isEmpty = false := by
+            rw [hbe]; cases hb : b with
+            | nil => exact absurd hb hc3
+            | cons _ _ => rfl
+          simp [this]
+        have e2 : idleStep lvl app (extend { s with out := .first s.head.method s.head.target :: s.out, state := .continueSending } b) = some t := by
+          unfold idleStep; simp only [extend, t]
+        simp only [hc1, if_false, hc2, if_true]
+        rw [recv_of_state _ _ (by simp) (by simp)]
+        have wf2 : ChunkWF (extend { s with out := .first s.head.method s.head.target :: s.out, state := .continueSending } b) := wf
+        rw [idle_step lvl app _ _ (chunkWF_extend s b wf) e1, idle_step lvl app _ _ wf2 e2]
+  · rename_i hs
+    cases h
+    apply comm_simple lvl app s _ b wf _ (by simp) (by simp)
+    unfold idleStep; simp only [extend, hs]
   · rename_i hs
     split at h
     · rename_i hrem
